@@ -162,10 +162,9 @@ CATALOGUE = {
         # spin inside the delivery sets a shim error flag, judged there as "another error flag is set")
         dict(C01_LR_REG, tiers=list(T), also=["C01", "C02"]),
         # the heavier ones (built-in actions + allocator stubs): the unregister variant finished in 1043 s on the
-        # unchanged tree (thorough); the register variant stays outside the registered tiers until it has been
-        # seen to finish inside the per-harness limit (DESIGN 9): ./check C03 --only c03_lr_delivery_vs_register
+        # unchanged tree (thorough); the register variant in 1413 s (both run side by side)
         H("c03::proofs::c03_lr_delivery_vs_unregister", T, lr=True, timeout=3600, what="a delivery (flag + self-pipe wake + conditional shutdown) on thread 1 while thread 0 is anywhere inside unregister() of one of its actions", bounds="Lal-Reps K=3, 2 threads"),
-        H("c03::proofs::c03_lr_delivery_vs_register", ("deep",), lr=True, timeout=3600, what="the same while thread 0 is anywhere inside register() of another signal", bounds="Lal-Reps K=3, 2 threads"),
+        H("c03::proofs::c03_lr_delivery_vs_register", T, lr=True, timeout=3600, what="the same while thread 0 is anywhere inside register() of another signal", bounds="Lal-Reps K=3, 2 threads"),
     ],
     "C04": [
         H("c04::proofs::c04_seq_chain_all_dispositions", Q, what="previous disposition in {default, ignore, 1-arg handler, 3-arg SA_SIGINFO handler}; deliveries before the take-over, after it, after another signal's first registration, after the last action was removed by id, after a re-registration, after unregister_signal: chained exactly once, first, right convention and arguments", bounds="4 dispositions x 6 arrival instants"),
